@@ -263,6 +263,10 @@ def run(ctx):
     ne = w.cover_edges()
     # histories on ONE object: Construct; Calculate(g1); Calculate(g2) [; Calculate(g3)] - an evaluation must not depend on earlier ones
     w2 = Walker(ctx, g, OmegaAdapter(ctx, terms, 12, nmax=1000 if thorough else 100), 'replay.OmegaModels.histories')
-    npaths, complete = w2.all_paths(4 if thorough else 3, budget=None)
+    npaths, complete = w2.all_paths(3, budget=None)
+    if thorough:        # three evaluations in a row on the short chains
+        w3 = Walker(ctx, g, OmegaAdapter(ctx, terms, 7, nmax=10), 'replay.OmegaModels.histories3')
+        n3, _ = w3.all_paths(4, budget=None)
+        npaths += n3
     ctx.stage('replay.OmegaModels', graph_states=len(g.state), graph_edges=g.n_edges, edges_replayed=ne, paths=npaths, real_calls=w.steps + w2.steps,
               skipped_steps=w.skipped + w2.skipped)
